@@ -79,6 +79,34 @@ def r2(fx):
              got={x: k.get(x) for x in ('dark', 'draw_transparent')}, want='**kw')
     yield ob('as_svg_data_uri writes (matrix, matrix_size) to its own buffer', len(a) >= 3 and a[0] == '<m>' and a[1] == (21, 21) and isinstance(a[2], _BytesIO), uri,
              got=[type(x).__name__ for x in a], want=['matrix', 'matrix_size', 'buff'])
+    # falsy but meaningful values ('' is not None: an empty title is an element, border 0 is no quiet zone) are not dropped on the way
+    falsy = {p_: '' for p_ in ('title', 'desc', 'svgid', 'svgclass', 'lineclass', 'unit') if p_ in own}
+    falsy.update({p_: False for p_ in ('xmldecl', 'svgns', 'omitsize', 'nl') if p_ in own})
+    if 'border' in own:
+        falsy['border'] = 0
+    calls.clear()
+    FuncVal(uri, wenv, it)('<m>', (21, 21), **falsy)
+    kf = calls[0][2]
+    sd_ = src.param_defaults(svg)
+    lost = []
+    for p_, v_ in falsy.items():
+        if p_ in kf:
+            if kf[p_] != v_ or type(kf[p_]) is not type(v_):
+                lost.append((p_, v_, kf[p_]))
+            continue
+        dflt = ev.ev(sd_[p_], ev.base_env(fx.forest, 'writers')) if p_ in sd_ else '<required>'
+        if dflt == v_ and type(dflt) is type(v_):
+            continue
+        from . import p10
+        try:
+            o1, _ = p10._render(fx, it, 'write_svg', 2, '#000', None, **{p_: v_})
+            o2, _ = p10._render(fx, it, 'write_svg', 2, '#000', None)
+            same = o1 == o2
+        except PyRaise:
+            same = False
+        if not same:
+            lost.append((p_, v_, f'not passed (serialiser default {dflt!r} means something else)'))
+    yield ob('as_svg_data_uri passes empty strings, False and 0 on as given', not lost, uri, got=lost[:3], want=[])
     # defaults: what write_svg receives when nothing is given = its own defaults (documented differences: xmldecl, nl)
     calls.clear()
     FuncVal(uri, wenv, it)('<m>', (21, 21))
